@@ -576,3 +576,56 @@ Proof.
       cbn [nltb NumXR xltb] in L. destruct (Rlt_dec r x); [assumption|discriminate].
   - destruct V; [reflexivity|discriminate].
 Qed.
+
+(* AggBasic::min / max on a null-free series *)
+Lemma pmax_flip {A} (N : Num A) (l : list A) : pmax (NA := N) l = pmin (NA := NumFlip N) l.
+Proof. reflexivity. Qed.
+Lemma okX_map_some (V : list R) : Forall okX (map Some V).
+Proof. apply Forall_forall. intros a Ha. apply in_map_iff in Ha. destruct Ha as (r & <- & _). discriminate. Qed.
+Theorem plain_min_float (V : list R) :
+  match pmin (map Some V) with
+  | None => V = []
+  | Some m => exists r, m = Some r /\ In r V /\ forall x, In x V -> r <= x
+  end.
+Proof.
+  pose proof (pmin_spec xlt_irrefl xlt_trans xlt_total (okX_map_some V)) as H.
+  destruct (pmin (map Some V)) as [m|].
+  - destruct H as [Hin Hall]. apply in_map_iff in Hin. destruct Hin as (r & <- & Hr). exists r.
+    split; [reflexivity|]. split; [exact Hr|]. intros x Hx. apply le_real, Hall, in_map, Hx.
+  - destruct V; [reflexivity|discriminate].
+Qed.
+Theorem plain_max_float (V : list R) :
+  match pmax (map Some V) with
+  | None => V = []
+  | Some m => exists r, m = Some r /\ In r V /\ forall x, In x V -> x <= r
+  end.
+Proof.
+  rewrite pmax_flip.
+  pose proof (pmin_spec (NA := NumFlip NumXR) xgt_irrefl xgt_trans xgt_total (okX_map_some V)) as H.
+  destruct (pmin (map Some V)) as [m|].
+  - destruct H as [Hin Hall]. apply in_map_iff in Hin. destruct Hin as (r & <- & Hr). exists r.
+    split; [reflexivity|]. split; [exact Hr|]. intros x Hx. apply ge_real, Hall, in_map, Hx.
+  - destruct V; [reflexivity|discriminate].
+Qed.
+Lemma okZ_all (l : list Z) : Forall okZ l.
+Proof. apply Forall_forall. intros a _. exact I. Qed.
+Theorem plain_min_max_int (l : list Z) :
+  match pmin (NA := AggNumZ) l with
+  | None => l = []
+  | Some m => In m l /\ forall x, In x l -> (m <= x)%Z
+  end /\
+  match pmax (NA := AggNumZ) l with
+  | None => l = []
+  | Some m => In m l /\ forall x, In x l -> (x <= m)%Z
+  end.
+Proof.
+  split.
+  - pose proof (pmin_spec (NA := AggNumZ) zlt_irrefl zlt_trans zlt_total (okZ_all l)) as H.
+    destruct (pmin l) as [m|]; [|exact H]. destruct H as [Hin Hall]. split; [exact Hin|].
+    intros x Hx. specialize (Hall x Hx). unfold le in Hall. cbn [nltb AggNumZ] in Hall. apply Z.ltb_ge in Hall. exact Hall.
+  - rewrite pmax_flip.
+    pose proof (pmin_spec (NA := NumFlip AggNumZ) zgt_irrefl zgt_trans zgt_total (okZ_all l)) as H.
+    destruct (pmin l) as [m|]; [|exact H]. destruct H as [Hin Hall]. split; [exact Hin|].
+    intros x Hx. specialize (Hall x Hx). unfold le in Hall. cbn [nltb NumFlip AggNumZ] in Hall.
+    apply Z.ltb_ge in Hall. exact Hall.
+Qed.
